@@ -12,7 +12,7 @@ use crate::parser::{
     CsrImm, HasRegisterSets, InstructionProperties, LabelString, LabelStringToken, LoadType,
     RegisterProperties, StoreType,
 };
-use crate::parser::{ParserNode, Register};
+use crate::parser::{CsrIType, CsrType, ParserNode, Register};
 use crate::passes::{CfgError, GenerationPass};
 
 use super::memory_location::MemoryLocation;
@@ -271,6 +271,42 @@ impl GenerationPass for AvailableValuePass {
                             }
                         }
                     }
+                    // A write to a CSR: what was known about its value, and about memory that is
+                    // addressed through it, no longer holds (csrrw / csrrwi define the new value
+                    // below; the set and clear forms with a non-zero source do not)
+                    if let Some(csr) = written_csr(&node.node()) {
+                        map = map
+                            .into_iter()
+                            .filter(|(location, _)| {
+                                !matches!(location,
+                                    MemoryLocation::CsrRegister(c)
+                                    | MemoryLocation::CsrRegisterValueOffset(c, _) if *c == csr)
+                            })
+                            .collect();
+                    }
+                    // A store through a pointer that was read from a CSR invalidates every word
+                    // it overlaps (the word it defines, if any, is added by the rule below)
+                    if let ParserNode::Store(store) = &node.node() {
+                        if let Some(AvailableValue::ValueInCsr(csr)) =
+                            node.reg_values_in().get(store.rs1.get())
+                        {
+                            let size = match store.inst.get() {
+                                StoreType::Sb => 1,
+                                StoreType::Sh => 2,
+                                StoreType::Sw => 4,
+                            };
+                            let lo = i64::from(store.imm.get().value());
+                            let hi = lo + size;
+                            map = map
+                                .into_iter()
+                                .filter(|(location, _)| {
+                                    !matches!(location,
+                                        MemoryLocation::CsrRegisterValueOffset(c, off)
+                                            if c == csr && i64::from(*off) < hi && lo < i64::from(*off) + 4)
+                                })
+                                .collect();
+                        }
+                    }
                     if let Some((MemoryLocation::StackOffset(offset), value)) =
                         node.gen_memory_value()
                     {
@@ -281,7 +317,13 @@ impl GenerationPass for AvailableValuePass {
                             );
                         }
                     } else if let Some((memory, value)) = node.gen_memory_value() {
-                        map.insert(memory, value);
+                        // ("the current value of r" says nothing when this very instruction
+                        // overwrites r, as in `csrrw t0, uscratch, t0`)
+                        // (the old fact has been dropped above: the CSR is written)
+                        if !matches!(&value, AvailableValue::RegisterWithScalar(reg, _) if overwritten.contains(reg))
+                        {
+                            map.insert(memory, value);
+                        }
                     }
                     map
                 };
@@ -296,10 +338,15 @@ impl GenerationPass for AvailableValuePass {
                 if !matches!(&node.node(), ParserNode::Load(load) if *load.inst.get() != LoadType::Lw) {
                     rule_value_from_stack(&node.node(), &mut out_reg_n, &node.memory_values_in());
                 }
-                rule_pull_value_from_csr_memory(&node.node(), &mut out_reg_n, &out_memory_n);
+                // (like stack slots, memory behind a CSR pointer is tracked in whole words)
+                if !matches!(&node.node(), ParserNode::Load(load) if *load.inst.get() != LoadType::Lw) {
+                    rule_pull_value_from_csr_memory(&node.node(), &mut out_reg_n, &out_memory_n);
+                }
                 rule_zero_to_const(&mut out_reg_n, &mut out_memory_n);
                 rule_perform_math_ops(&node.node(), &mut out_reg_n, &node.reg_values_in());
-                rule_push_value_to_csr_memory(&node.node(), &mut out_memory_n, &out_reg_n);
+                if !matches!(&node.node(), ParserNode::Store(store) if *store.inst.get() != StoreType::Sw) {
+                    rule_push_value_to_csr_memory(&node.node(), &mut out_memory_n, &out_reg_n);
+                }
                 rule_known_values_to_stack(&mut out_memory_n, &node.reg_values_in());
                 // TODO stack reset?
 
@@ -318,6 +365,24 @@ impl GenerationPass for AvailableValuePass {
             }
         }
         Ok(())
+    }
+}
+
+/// The CSR whose value this instruction changes, if any.
+fn written_csr(node: &ParserNode) -> Option<crate::parser::CsrImm> {
+    match node {
+        ParserNode::Csr(expr) => match expr.inst.get() {
+            CsrType::Csrrw => Some(expr.csr.get_cloned()),
+            // csrrs / csrrc with x0 as source only read
+            _ if !expr.rs1.get().is_const_zero() => Some(expr.csr.get_cloned()),
+            _ => None,
+        },
+        ParserNode::CsrI(expr) => match expr.inst.get() {
+            CsrIType::Csrrwi => Some(expr.csr.get_cloned()),
+            _ if expr.imm.get().value() != 0 => Some(expr.csr.get_cloned()),
+            _ => None,
+        },
+        _ => None,
     }
 }
 
